@@ -152,15 +152,23 @@ func vfC20DirichletOne(shape float64) {
 }
 
 // H_C20_dirichlet_one: Dirichlet with one non-unit shape (samplers for shape < 1 and > 1) among unit shapes, at any position: n strictly positive finite components summing to factor.
-// bounds: n = 3; one shape in {1/4, 1/2, 3/2, 4} at position 0, 1 or 2, the others 1; factor symbolic in (0,1e6]; at most 6 draws of math/rand per path (4 needed: rejection loops cut after 2 extra draws in total; longer rejection runs repeat the same body on fresh draws)
+// bounds: n = 3; one shape in {1/4, 1/2, 3/2, 4} at position 0, 1 or 2, the others 1; factor symbolic in (0,1e6]; at most 5 draws of math/rand per path (4 needed: one extra draw, i.e. one out-of-range / rejected uniform; a complete rejection of the two-draw samplers is covered for the sampler alone by H_C20_gamma and here by the thorough twin; longer rejection runs repeat the same body on fresh draws)
 // outside: arbitrary shapes (the sampler itself for every shape in [0.01,100]: H_C20_gamma; symbolic shape here: thorough twin); several non-unit shapes (H_C20_dirichlet_lt1, thorough twins); IEEE rounding and underflow are outside the claim: floats are exact reals; ln/exp/pow/sqrt uninterpreted (DESIGN.md §2.4)
-//verif: maxrand=6 maxsteps=200000
+//verif: maxrand=5 maxsteps=200000
 func H_C20_dirichlet_one() {
 	vfC20DirichletOne(vfC20ShapesOne[nondetRange(0, len(vfC20ShapesOne)-1)])
 }
 
+// H_C20_dirichlet_one_rej: as H_C20_dirichlet_one with at most 6 draws (one complete rejection of the non-unit sampler).
+// bounds: at most 6 draws per path
+// outside: IEEE rounding and underflow are outside the claim: floats are exact reals
+//verif: tier=thorough maxrand=6 maxsteps=200000 timeout=90000
+func H_C20_dirichlet_one_rej() {
+	vfC20DirichletOne(vfC20ShapesOne[nondetRange(0, len(vfC20ShapesOne)-1)])
+}
+
 // H_C20_dirichlet_one_deep: as H_C20_dirichlet_one with the non-unit shape symbolic.
-// bounds: the shape symbolic in [0.01,100]
+// bounds: the shape symbolic in [0.01,100]; at most 6 draws per path
 // outside: IEEE rounding and underflow are outside the claim: floats are exact reals
 //verif: tier=thorough maxrand=6 maxsteps=200000 timeout=60000
 func H_C20_dirichlet_one_deep() {
